@@ -106,6 +106,18 @@ CLAIMED = {
             "by this check with the failing document and repaired by fix: commit 7da0ca7.",
             "PARTIAL: serde_json / ciborium / postcard are outside the model (driven on the implementation by SERDE-FORMATS: "
             "exact payloads, round trips, malformed documents); serde's visitor defaults by contract; three harness builds"),
+    "C17": ("PARTIAL.  Theorems, for every input and every configuration (feature unsafe on/off, debug assertions on/off, all table "
+            "and SIMD switches): no operation of the public API returns Panic other than quartile(i >= buckets), and none returns "
+            "UB (= a false invariant!() under `unsafe`, or from_utf8_unchecked on non-ASCII): parsers, formatters into any buffer, "
+            "accessors, generator (any pieces) and finalize (any options), length encoding, comparison, stream helpers for ANY "
+            "reader behaviour (an over-claiming reader: clean panic), string comparison, serde.  The inventory of invariant!/unsafe/"
+            "*_unchecked/raw-load/#[target_feature] sites is re-read from the source on every run and proved EQUAL to the audited "
+            "list, each invariant discharged by a theorem; enabling `unsafe` changes no result (every operation is a function of "
+            "parser strictness only).  The pinned tree violated the property (invariant! on a reader-supplied length): witness "
+            "theorem C17_reader_ub_refuted_before_fix; reported by this check with the failing script, repaired by fix: 6c56d09.",
+            "PARTIAL: undefined behaviour inside compiled unsafe blocks beyond the modelled preconditions (pointer provenance, "
+            "target_feature ABI, LLVM assume) and sanitizer-level facts are runtime properties of the artefact, not claimed; the "
+            "TOTAL suite runs one corpus on a debug-assertions build and on an `unsafe` release build and requires identical results"),
 }
 
 NA_REASON = {
